@@ -343,13 +343,14 @@ func TestC26(t *testing.T) {
 	}
 	acc.Sample(map[string]any{"group": "offerer", "a": uids[len(uids)-6], "b": uids[len(uids)-5]})
 
+	run.Cov["link_acceptance"] = linkAcceptance(run, acc)
 	acc.Finish()
 	run.Cov["panics_not_judged"] = panics
 	run.Cov["panics_note"] = "decoder panics on undecodable payloads are counted, not judged, by this property (its text is about what can be decoded); the no-panic clause on arbitrary ciphertext bytes is C12's"
 	run.Cov["alphabet"] = "7 signals; 3 fixture keys; 10 non-WebRTC contexts; bit flips / truncations / 1-byte extensions; raw strings len 0..64 x 8 fills; ID menu incl. all non-empty strings over {1,A,a} up to length 3, real peer IDs and near misses"
 	run.Cov["bound"] = "deviation <= 1 around valid payloads; raw strings up to 64 bytes; the stated ID menu"
 	run.Assumptions = append(run.Assumptions,
-		"the last clause of the property (a WebRTC link is only accepted from the signalled peer) is NOT decided here: executeLink passes s.peerID to transport_quic.ListenSession/DialSession, and that primitive's peer pinning is exercised by C03; the pion stack is outside any bounded exhaustive run",
+		"the last clause (a WebRTC link is only accepted from the signalled peer) is decided at the session tracker: its executeLink runs over an in-memory message pipe in place of the detached data channel, the far end does a real QUIC/TLS handshake with its own identity; the pion stack (ICE, DTLS, SCTP) is outside any bounded exhaustive run",
 		"the oracle is the case construction itself (who the payload was encoded for, whether it was modified); content equality is judged field by field through getters",
 		"the menu of non-WebRTC contexts is a literal copy of the context strings found in the repository at the time of writing")
 	run.Finish(t)
